@@ -75,7 +75,7 @@ def main(argv):
         tier = argv[argv.index("--tier") + 1]
     seed = int(os.environ.get("VERIF_SEED", "0") or 0)
     prop = load_prop(pid)
-    known = [k for k in load_known() if k["property"] == pid]
+    known = [k for k in load_known() if pid in k["properties"]]
     known_open = {k["id"]: k for k in known if k["status"] == "open"}
     groups = prop["groups"]
     include = prop["include"]
